@@ -203,7 +203,15 @@ def rule_d(ctx):
     typestate(_Alias(ctx, "C10.e"))
 
 
+def rule_f(ctx):
+    """each delivery yields at most one record only if at most one action per (instance, signal) feeds the slot: check-register-record must be
+    one critical section of the id-table mutex (shared with C12.f)"""
+    from .C12 import rule_f as one_action
+    one_action(ctx, rid="C10.f")
+
+
 def run(ctx):
+    ctx.guarded("C10.f", rule_f)
     ctx.guarded("C10.d", rule_d)
     ctx.guarded("C10.a", rule_a)
     ctx.guarded("C10.b", rule_b)
